@@ -33,6 +33,8 @@ type raCase struct {
 	TestMode bool   `json:"test_mode"`
 	Proto    string `json:"proto"`
 	Ops      []raOp `json:"ops"`
+	// Linger: the plugin's main() hangs after Serve has returned
+	Linger bool `json:"linger,omitempty"`
 }
 
 func runReattachCase(c raCase, bin, tmp string) []map[string]interface{} {
@@ -95,6 +97,9 @@ func runReattachCase(c raCase, bin, tmp string) []map[string]interface{} {
 				}
 			} else {
 				pc := &vp.PluginCfg{LegacyVersion: 1, Legacy: &vp.SetCfg{Proto: c.Proto, Tag: tag}, GRPCServer: c.Proto == "grpc"}
+				if c.Linger {
+					pc.AfterServe = "hang"
+				}
 				hc := &vp.HostCfg{LegacyVersion: 1, Legacy: &vp.SetCfg{Proto: "grpc", Tag: tag}, Allowed: []string{"netrpc", "grpc"}, TempDir: tmp}
 				pair = vp.NewPair(bin, hc, pc, []string{"TMPDIR=" + tmp}, nil)
 				st, _, err := pair.Dispense()
